@@ -8,6 +8,7 @@ wallet is compared with the model.
 import asyncio
 import hashlib
 import random as _random
+import struct
 
 from hypothesis import strategies as st
 
@@ -15,6 +16,7 @@ from vlib.runner import Part, Out
 from vlib import aio
 from vlib.gate import Gate
 from vlib.wallet_harness import lbry, WalletEnv
+from vlib.ref.merkle import merkle_root, merkle_branch, dsha256
 
 PROPERTY_ID = "C09"
 LEVEL = "exploration"
@@ -29,12 +31,16 @@ RULE = ("case = op list over a chain model: fund(address within gap beyond last 
 ASSUMPTIONS = [
     "server history order: confirmed by (height, position in block), then mempool in arrival order with height 0 / -1 (ElectrumX "
     "convention); claim/support scripts are indexed under their P2PKH address as the LBRY hub does",
-    "headers are empty, so SPV verification is skipped (C08 covers it); the server never retracts a transaction",
+    "header store: empty (SPV verification skipped), or holding the server's blocks up to the tip / up to one below the tip "
+    "(headers placed by the harness with the Merkle roots of the model's blocks, the server answers with matching Merkle branches, "
+    "so confirmed transactions verify and the ledger marks them is_verified; C08 covers the verification itself); the server "
+    "never retracts a transaction",
     "newly generated addresses are subscribed by the harness (the real wallet does this through its address stream) until a fixpoint",
     "more generated addresses than last_used+gap is not a violation (labelled)",
 ]
 
 GAP_R, GAP_C = 4, 2
+HEADER_MODES = ["none", "none", "all", "all", "lag"]
 
 SCRIPT_KINDS = ["p2pk", "p2sh", "segwit_v0", "multisig", "op_return_2push", "op_return_only", "witness_v1", "empty",
                 "random", "truncated_push", "op_true", "op_return_data"]
@@ -94,9 +100,9 @@ def op_strategy(draw):
 
 def case_strategy(tier):
     n = 25 if tier == "quick" else 45
-    return st.builds(lambda ops, safe, mu: {"ops": ops, "only_template_scripts": safe, "max_uses": mu},
+    return st.builds(lambda ops, safe, mu, hm: {"ops": ops, "only_template_scripts": safe, "max_uses": mu, "headers": hm},
                      st.lists(op_strategy(), min_size=3, max_size=n), st.sampled_from([False, False, True]),
-                     st.sampled_from([1, 1, 2, 3]))
+                     st.sampled_from([1, 1, 2, 3]), st.sampled_from(HEADER_MODES))
 
 
 # ---- chain model -----------------------------------------------------------------------------------------------
@@ -136,6 +142,29 @@ class Chain:
             self.txs[txid]["height"] = self.tip
             self.txs[txid]["pos"] = pos
         self.mempool = []
+
+    def block(self, height):
+        """txids of the block at `height` in block order"""
+        ids = [(rec["pos"], t) for t, rec in self.txs.items() if rec["height"] == height]
+        return [t for _, t in sorted(ids)]
+
+    def merkle(self, txid):
+        """what blockchain.transaction.get_merkle answers for a confirmed transaction (Electrum protocol)"""
+        rec = self.txs[txid]
+        leaves = [bytes.fromhex(t)[::-1] for t in self.block(rec["height"])]
+        return {"block_height": rec["height"], "pos": rec["pos"],
+                "merkle": [b[::-1].hex() for b in merkle_branch(leaves, rec["pos"])]}
+
+    def raw_headers(self, upto):
+        """112-byte LBRY headers for heights 0..upto: version, previous hash, Merkle root, claim trie root, time, bits, nonce"""
+        buf, prev = b"", b"\0" * 32
+        for hgt in range(upto + 1):
+            leaves = [bytes.fromhex(t)[::-1] for t in self.block(hgt)]
+            root = merkle_root(leaves) if leaves else hashlib.sha256(b"empty block %d" % hgt).digest()
+            hdr = struct.pack("<I", 1) + prev + root + b"\0" * 32 + struct.pack("<III", 1500000000 + 150 * hgt, 0x207fffff, hgt)
+            prev = dsha256(hdr)
+            buf += hdr
+        return buf
 
     def height_of(self, txid):
         rec = self.txs[txid]
@@ -187,10 +216,13 @@ class StubNetwork:
         for t in txids:
             rec = self.chain.txs[t]
             hh = self.chain.height_of(t)
-            out[t] = (rec["tx"].raw.hex(), {"block_height": hh})
+            out[t] = (rec["tx"].raw.hex(), self.chain.merkle(t) if hh > 0 else {"block_height": hh})
         return out
 
     async def get_merkle(self, txid, height):
+        rec = self.chain.txs[txid]
+        if rec["height"] is not None and rec["height"] == height:
+            return self.chain.merkle(txid)
         return {"block_height": height}
 
     async def subscribe_address(self, address, *addresses):
@@ -264,6 +296,10 @@ async def fresh_env():
                 conn.execute("delete from " + t)
         await env.ledger.db.db.run(_wipe)
         env.ledger._tx_cache.clear()
+        hd = env.ledger.headers
+        hd.io.seek(0)
+        hd.io.truncate(0)
+        hd._size = 0
         env.ledger._known_addresses_out_of_sync.clear()
         env.ledger._address_update_locks.clear()
         for acc in env.accounts:
@@ -319,6 +355,16 @@ async def run_async(case, out):
         acc.receiving.maximum_uses_per_address = mu
         acc.change.maximum_uses_per_address = mu
     out.label("max_uses:%d" % mu)
+    hmode = case.get("headers", "none")
+    out.label("headers:" + hmode)
+
+    def place_headers():
+        """the wallet's header store follows the server's chain (to the tip, or one block behind it)"""
+        upto = chain.tip - (1 if hmode == "lag" else 0)
+        if hmode == "none" or upto < 1 or upto < len(ledger.headers):
+            return
+        ledger.headers._write(0, chain.raw_headers(upto))
+        out.label("headers_placed")
     last_used = {(a, c): -1 for a in (0, 1) for c in (0, 1)}
     owner = {}            # hash160 -> (acct, chain, n) for every address the model ever paid to
     ext_counter = [0]
@@ -390,6 +436,7 @@ async def run_async(case, out):
     async def deliver(op):
         rounds = 0
         any_concurrent = False
+        place_headers()
         while True:
             rows = await wallet_addresses()
             changed = []
@@ -415,6 +462,8 @@ async def run_async(case, out):
                     order.append(order.pop(j))
             if rounds == 1 and len(changed) >= 2 and pending_spend_in_round[0]:
                 out.nontrivial = True
+                if len(ledger.headers) > 1:
+                    out.label("verified_spend_round")
             out.label("changed:%s" % ("1" if len(changed) == 1 else "2-3" if len(changed) < 4 else ">=4"))
             try:
                 if op["mode"] == "seq" or (len(order) < 2 and not (op.get("burst") and rounds == 1)):
@@ -709,12 +758,14 @@ def burst_case(draw, tier="quick"):
                 "sticky": draw(st.sampled_from([True, True, True, False])),
                 "burst": {"sel": draw(st.integers(0, 3)), "k": draw(st.integers(2, 3)), "amount": draw(st.integers(0, 10 ** 6)),
                           "entry": draw(st.sampled_from(["update_history", "status_update"]))}})
-    return {"ops": ops, "only_template_scripts": True, "max_uses": draw(st.sampled_from([1, 1, 2, 3]))}
+    return {"ops": ops, "only_template_scripts": True, "max_uses": draw(st.sampled_from([1, 1, 2, 3])),
+            "headers": draw(st.sampled_from(HEADER_MODES))}
 
 
 PARTS = [
     Part("burst", burst_case, run_case, 300, 3000, quick_shards=8, thorough_shards=16, essential=("burst_same_address",)),
     Part("sync", case_strategy, run_case, 300, 3000, quick_shards=8, thorough_shards=16,
          essential=("concurrent", "spend", "claim", "support", "abandon", "mine", "fund_gap3", "spend_unconfirmed_parent",
-                    "third:multisig", "third:random", "single_key_account", "burst_same_address", "max_uses:2", "via_process_status_update", "reconnect", "channel_claim")),
+                    "third:multisig", "third:random", "single_key_account", "burst_same_address", "max_uses:2", "via_process_status_update", "reconnect", "channel_claim",
+                    "headers_placed", "verified_spend_round")),
 ]
